@@ -10,12 +10,11 @@
 // crashes/aborts attributed to the exact configuration.
 #include "vcommon.hpp"
 #include "ntt_goldilocks.hpp"
+#include "ntt_oracle.hpp"
 using namespace vc;
 typedef Goldilocks::Element E;
-static Mod F(GP);
-
-enum Mode { M_NTT, M_INTT, M_EXT, NMODE };
-static const char *mname[] = {"NTT", "INTT", "extendPol"};
+using nttor::F;
+using nttor::M_NTT; using nttor::M_INTT; using nttor::M_EXT; using nttor::NMODE; using nttor::mname;
 static const char *propof[] = {"C03", "C04", "C05"};
 struct Case
 {
@@ -30,38 +29,8 @@ static std::string casestr(const Case &c)
     return fmt("mode=%s D=%llu n=%llu next=%llu ncols=%llu nphase=%s nblock=%s buf=%d dst=%d nthreads=%u", mname[c.mode], (unsigned long long)c.D, (unsigned long long)c.n,
                (unsigned long long)c.next, (unsigned long long)c.ncols, hex(c.nphase).c_str(), hex(c.nblock).c_str(), c.buf, c.dst, c.nthreads);
 }
-static unsigned lg(u64 x) { unsigned r = 0; while (x > 1) { x >>= 1; r++; } return r; }
-
-// kernel matrix K[j*nout + k]: output k for input impulse j
-static std::vector<u64> kernel(const Case &c)
-{
-    u64 n = c.n, nout = (c.mode == M_EXT) ? c.next : c.n;
-    std::vector<u64> K(n * nout);
-    if (n == 0) return K;
-    u64 wn = Goldilocks::w(lg(n)).fe % GP;
-    if (c.mode == M_NTT)
-    {
-        for (u64 j = 0; j < n; j++) for (u64 k = 0; k < n; k++) K[j * n + k] = F.pow(wn, (j * k) % n);
-    }
-    else if (c.mode == M_INTT)
-    {
-        u64 wi = F.inv(wn), ni = F.inv(n % GP);
-        for (u64 j = 0; j < n; j++) for (u64 k = 0; k < n; k++) K[j * n + k] = F.mul(ni, F.pow(wi, (j * k) % n));
-    }
-    else
-    {
-        u64 wi = F.inv(wn), ni = F.inv(n % GP), wx = Goldilocks::w(lg(nout)).fe % GP;
-        for (u64 j = 0; j < n; j++)
-            for (u64 k = 0; k < nout; k++)
-            {
-                u64 q = F.mul(F.pow(wi, j), F.mul(7, F.pow(wx, k))); // w_N^-j * 7 * w_Next^k
-                u64 acc = 0, qi = 1;
-                for (u64 i = 0; i < n; i++) { acc = F.add(acc, qi); qi = F.mul(qi, q); }
-                K[j * nout + k] = F.mul(ni, acc);
-            }
-    }
-    return K;
-}
+static unsigned lg(u64 x) { return nttor::lg(x); }
+static std::vector<u64> kernel(const Case &c) { return nttor::kernel(c.mode, c.n, c.next); }
 
 // class names for failures that the harness can characterise from the configuration alone
 static std::string fail_class(const Case &c)
